@@ -21,6 +21,8 @@ type Shape struct {
 	Key *Shape  `json:"key,omitempty"` // key type of map
 	F   []Field `json:"f,omitempty"`   // struct fields
 	N   string  `json:"n,omitempty"`   // struct: name under which the derived object type is registered
+	G   string  `json:"g,omitempty"`   // a defined (named) Go type declared in static.go; K/E/Key/F describe its underlying type
+	P   bool    `json:"p,omitempty"`   // struct with an embedded first struct field: its object type is declared as the parent
 }
 
 // Field of a struct shape.  TagName / TagValue become `puppet:"name=>..,value=>.."`.
@@ -29,6 +31,7 @@ type Field struct {
 	TagName  string `json:"tn,omitempty"`
 	TagValue *Lit   `json:"tv,omitempty"`
 	T        *Shape `json:"t"`
+	Emb      bool   `json:"emb,omitempty"` // embedded field (static struct types only)
 }
 
 // Lit is a default value literal in a tag: K = "int" | "str" | "bool" | "float" (F: binary64 bits, hex; only values
@@ -146,6 +149,13 @@ func (f *Field) tag() reflect.StructTag {
 
 // RType assembles the Go type with reflect.SliceOf/MapOf/PtrTo/StructOf.
 func (s *Shape) RType() reflect.Type {
+	if s.G != "" {
+		t, ok := staticTypes[s.G]
+		if !ok {
+			panic("unknown static type " + s.G)
+		}
+		return t
+	}
 	if t, ok := scalarTypes[s.K]; ok {
 		return t
 	}
@@ -169,6 +179,15 @@ func (s *Shape) RType() reflect.Type {
 }
 
 func (s *Shape) String() string {
+	if s.G != "" {
+		u := *s
+		u.G = ""
+		p := ""
+		if s.P {
+			p = " parent=" + s.F[0].T.G
+		}
+		return s.G + p + "(" + u.String() + ")"
+	}
 	switch s.K {
 	case "slice":
 		return "[]" + s.E.String()
@@ -184,6 +203,9 @@ func (s *Shape) String() string {
 		for i := range s.F {
 			if i > 0 {
 				b.WriteString("; ")
+			}
+			if s.F[i].Emb {
+				b.WriteString("embedded ")
 			}
 			b.WriteString(s.F[i].Name + " " + s.F[i].T.String())
 			if t := s.F[i].tag(); t != "" {
@@ -231,9 +253,13 @@ func Build(s *Shape, v *Val) reflect.Value {
 	}
 	switch s.K {
 	case "string":
-		return reflect.ValueOf(string(v.S))
+		r := reflect.New(t).Elem()
+		r.SetString(string(v.S))
+		return r
 	case "bool":
-		return reflect.ValueOf(v.B)
+		r := reflect.New(t).Elem()
+		r.SetBool(v.B)
+		return r
 	case "slice":
 		if v.Nil {
 			return reflect.Zero(t)
